@@ -32,7 +32,7 @@ var contractAddr = ethcommon.HexToAddress("0x00000000000000000000000000000000000
 // script from the client (the oracle holds for every interleaving) or ends the case as Discard.
 const (
 	stepWait     = 300 * time.Millisecond // a head that the client apparently ignores
-	resubWait    = 3 * time.Second        // client must come back with a new subscription after a fault
+	resubWait    = 2 * time.Second        // client must come back with a new subscription after a fault
 	endWait      = 3 * time.Second        // stream must reach lastHead-follow
 	probeWait    = 2 * time.Second        // after endWait: does the stream move past the missing block?
 	teardownWait = 5 * time.Second
@@ -328,7 +328,12 @@ func run(p Prog) *prog.Result {
 			script = append(script, fmt.Sprintf("head %d", head))
 			// NoWait is honoured only in front of another head (two heads in quick succession): a fault
 			// racing with an unprocessed head would make the case's outcome depend on the client's select order.
-			if (s.NoWait && i+1 < len(p.Steps) && p.Steps[i+1].Op == "head") || head < p.Follow {
+			if head < p.Follow {
+				classes["head-below-follow"] = true
+				continue
+			}
+			if s.NoWait && i+1 < len(p.Steps) && p.Steps[i+1].Op == "head" {
+				classes["heads-in-quick-succession"] = true
 				continue
 			}
 			target := head - p.Follow + 1
@@ -556,7 +561,7 @@ type rawStep struct {
 
 func genRawStep(t *rapid.T) rawStep {
 	return rawStep{
-		kind:     rapid.SampledFrom([]string{"head", "head", "head", "head", "kill", "suberr", "failsub", "headfault", "headfault"}).Draw(t, "kind"),
+		kind:     rapid.SampledFrom([]string{"head", "head", "head", "kill", "kill", "suberr", "suberr", "failsub", "headfault", "headfault", "headfault"}).Draw(t, "kind"),
 		adv:      rapid.SampledFrom([]uint64{0, 1, 1, 1, 2, 3, 5, 9}).Draw(t, "adv"),
 		nowait:   rapid.IntRange(0, 5).Draw(t, "nowait") == 5,
 		getfault: rapid.SampledFrom([]string{"fail", "kill"}).Draw(t, "getfault"),
@@ -573,7 +578,7 @@ func gen(t *rapid.T) Prog {
 	p.Head0 = rapid.Uint64Range(0, p.Start+p.Follow+2).Draw(t, "head0")
 	p.Blocks = append([][]fakeeth.LogSpec{nil}, // block 0 (genesis) carries nothing
 		rapid.SliceOfN(rapid.Custom(genBlock), 7, 47).Draw(t, "blocks")...)
-	raw := rapid.SliceOfN(rapid.Custom(genRawStep), 0, 10).Draw(t, "steps")
+	raw := rapid.SliceOfN(rapid.Custom(genRawStep), 2, 12).Draw(t, "steps")
 	tailAdv := rapid.Uint64Range(0, 6).Draw(t, "tail")
 
 	// Repair pass (a pure function of the draws, so that shrinking stays effective): a small model of the
@@ -581,6 +586,7 @@ func gen(t *rapid.T) Prog {
 	// on the third failure in a row without progress; progress = a head fully processed since the last failure.
 	head, cursor, tries, progress := p.Head0, p.Start, 0, false
 	pendingFailSub := 0
+	delivered := false // the model has delivered something: keep most of the budget for faults after that
 	fault := func() { // account one failure
 		if progress {
 			tries = 0
@@ -598,7 +604,7 @@ func gen(t *rapid.T) Prog {
 		kind := r.kind
 		switch kind {
 		case "kill", "suberr":
-			if tries+pendingFailSub < 2 {
+			if tries+pendingFailSub < 2 && (delivered || tries+pendingFailSub < 1) {
 				fault()
 				settle()
 				p.Steps = append(p.Steps, Step{Op: kind})
@@ -618,15 +624,17 @@ func gen(t *rapid.T) Prog {
 		if head >= p.Follow && head-p.Follow >= cursor {
 			to := head - p.Follow
 			batches := int((to-cursor)/p.Batch) + 1
-			if kind == "headfault" && tries+pendingFailSub < 2 {
+			if kind == "headfault" && tries+pendingFailSub < 2 && (delivered || tries+pendingFailSub < 1) {
 				fault()
 				settle()
 				s.GetFault = r.getfault
 				s.Nth = 1 + r.nth%batches
 				cursor += uint64(s.Nth-1) * p.Batch // at least the batches before the fault were delivered
+				delivered = delivered || s.Nth > 1
 			} else {
 				cursor = to + 1
 				progress = true
+				delivered = true
 			}
 		}
 		p.Steps = append(p.Steps, s)
